@@ -6,6 +6,7 @@ local names are resolved by single-assignment data flow, and emission is type-di
 `(total - reserved) * allocation_ratio` compared with an integer becomes `CapOps.capLt`, `int(...)` of it
 becomes `CapOps.capTrunc`.  Fails closed: any construct it does not understand raises ExtractError."""
 import ast
+import copy
 import inspect
 import os
 import textwrap
@@ -55,6 +56,43 @@ class Env(object):
     def resolve(self, name):
         vs = self.defs.get(name, [])
         return vs[0] if len(vs) == 1 else None
+
+
+def _pure(e):
+    """an expression that reads configuration / attributes only: names, attribute chains, constants"""
+    if isinstance(e, (ast.Name, ast.Constant)):
+        return True
+    if isinstance(e, ast.Attribute):
+        return _pure(e.value)
+    return False
+
+
+def inline_pure_locals(fn):
+    """a copy of the function in which every local that is assigned exactly once, at the top level of the body, to a
+    pure expression (`randomize = self._ctx.config.placement.randomize_allocation_candidates`) is replaced by that
+    expression wherever it is read, and the assignment removed - so that naming a sub-expression does not change what
+    the translator sees"""
+    fn = copy.deepcopy(fn)
+    env = Env(fn)
+    top = {st.targets[0].id: st for st in fn.body
+           if isinstance(st, ast.Assign) and len(st.targets) == 1 and isinstance(st.targets[0], ast.Name)}
+    subst = {n: st.value for n, st in top.items() if env.resolve(n) is not None and _pure(st.value)}
+    # a parameter or a name that is also written elsewhere (for-target, augmented assignment) is left alone
+    for n in ast.walk(fn):
+        if isinstance(n, (ast.For, ast.AugAssign, ast.With, ast.comprehension)):
+            for t in ast.walk(getattr(n, 'target', n)):
+                if isinstance(t, ast.Name) and isinstance(t.ctx, ast.Store):
+                    subst.pop(t.id, None)
+
+    class Sub(ast.NodeTransformer):
+        def visit_Name(self, node):
+            if isinstance(node.ctx, ast.Load) and node.id in subst:
+                return copy.deepcopy(subst[node.id])
+            return node
+    fn.body = [st for st in fn.body if not (isinstance(st, ast.Assign) and len(st.targets) == 1 and
+                                            isinstance(st.targets[0], ast.Name) and st.targets[0].id in subst)]
+    Sub().visit(fn)
+    return fn
 
 
 CMP = {ast.Lt: '<', ast.LtE: '≤', ast.Gt: '>', ast.GtE: '≥', ast.Eq: '==', ast.NotEq: '!='}
@@ -424,7 +462,7 @@ def generate():
     emit('  ' + decision_function(f, atoms, copy_ret, 'copy_arr_if_needed'))
     emit('')
     # ---------------------------------------------------------------- limit_results (C20)
-    f = find_func(t, 'limit_results')
+    f = inline_pure_locals(find_func(t, 'limit_results'))
     top = [st for st in f.body if isinstance(st, ast.If)]
     if len(top) != 1 or len(top[0].orelse) != 1 or not isinstance(top[0].orelse[0], ast.If):
         raise ExtractError('limit_results: expected one `if <limiting> ... elif <randomize> ...`')
